@@ -474,6 +474,29 @@ func (x *c15) mapsArray(idx int) {
 		}
 	} else if r.P(1, 3) {
 		bind = gen.Realise(lv, r, gen.Rep{Typed: true}, true)
+	} else if r.P(1, 2) {
+		// the records as a YAML decoder delivers them (map[any]any), as ordered maps, or as Drops of maps
+		recs := make([]any, len(objs))
+		for i, o := range objs {
+			switch r.Intn(3) {
+			case 0:
+				m := map[any]any{}
+				for _, kv := range o.M {
+					m[kv.K] = gen.Canon(kv.V)
+				}
+				recs[i] = m
+			case 1:
+				ms := yaml.MapSlice{}
+				for _, kv := range o.M {
+					ms = append(ms, yaml.MapItem{Key: kv.K, Value: gen.Canon(kv.V)})
+				}
+				recs[i] = ms
+			default:
+				recs[i] = gen.DropV{X: gen.Canon(o)}
+			}
+		}
+		bind = recs
+		c.Obs("maps_array_other_record_types", 1)
 	}
 	desc := gen.Describe(bind) + " key=" + kname
 	if !c.Begin("maps-array:" + desc) {
@@ -722,6 +745,23 @@ func runC15(c *core.Ctx) {
 		want := strings.Join(ws, ",") + "|" + fmt.Sprint(n) + "|-7,-1,1,2,3,200"
 		if !res.OK() || res.Out != want {
 			c.Violate("sort|mixed-widths", "sort must order integers of mixed width and signedness ascending by numeric value", map[string]any{"a": desc, "expected": want, "observed": res.Brief()})
+		}
+	}
+	// records: two maps are the same element only when they have the same entries
+	if c.Shard == 7%c.NShards && c.Begin("uniq-over-records") {
+		full, part := map[string]any{"id": 1, "tag": "x"}, map[string]any{"id": 1}
+		for k, cs := range []struct {
+			a    []any
+			want string
+		}{{[]any{full, part, full}, "2"}, {[]any{part, full, part}, "2"}, {[]any{full, map[string]any{"id": 1, "tag": "x"}}, "1"}, {[]any{map[string]any{}, full, map[string]any{}}, "2"},
+			{[]any{full, map[string]any{"id": 1, "tag": "y"}, part}, "3"}} {
+			res := core.Run(x.e, "{{ a | uniq | size }}", map[string]any{"a": cs.a})
+			c.Eval(1)
+			c.Obs("uniq_record_cases", 1)
+			c.Distinct("uniqrec", fmt.Sprint(k))
+			if !res.OK() || res.Out != cs.want {
+				c.Violate("uniq|records", "uniq keeps the first occurrence of each distinct element: a record with fewer (or other) entries is another element", map[string]any{"a": gen.Describe(cs.a), "expected": cs.want, "observed": res.Brief()})
+			}
 		}
 	}
 	// unallocated (nil) Go slices and maps among the elements are empty collections, not nils: compact keeps them
